@@ -115,6 +115,8 @@ func (ev *Evidence) write(start time.Time) {
 			"functions_encoded_count":       len(fns),
 			"harnesses":                     ev.Harnesses,
 			"translator_selftest_records_agreeing_with_native": ev.SelftestRecords,
+			"input_domains_declared_in_harnesses": ev.Bounds,
+			"engine_bounds":                 "per path: interpreter steps 4M (thorough 20M), decision depth 1500; per harness 60k (thorough 1.5M) paths; per query 20s (thorough 120s); exceeding any is reported as inconclusive",
 			"replays_attempted":             ev.Replays,
 			"replays_confirmed":             ev.ReplaysConfirmed,
 			"known_findings_reported":       ev.Known,
